@@ -16,6 +16,9 @@ theorem S_table : Gen.S.toList = (List.range 256).map Spec.sboxN := by decide +k
 theorem Si_table : Gen.S.toList.map (fun s => Gen.Si.toList.getD s 256) = List.range 256 ∧
     Gen.Si.toList.map (fun s => Gen.S.toList.getD s 256) = List.range 256 := by decide +kernel
 
+/-- `Si` is InvSubBytes of FIPS-197 §5.3.2 computed directly: inverse affine map, then the inverse in GF(2^8) -/
+theorem Si_spec_table : Gen.Si.toList = (List.range 256).map Spec.invSboxN := by decide +kernel
+
 /-- T1..T4: S-box followed by the MixColumns column (02 01 01 03)ᵀ and its rotations (§5.1.3) -/
 theorem T_tables :
     Gen.T1.toList = Gen.S.toList.map (fun s => word (Spec.gmulN 2 s) s s (Spec.gmulN 3 s)) ∧
